@@ -10,9 +10,11 @@ import (
 	"encoding/json"
 	"fmt"
 	"os"
+	"runtime"
 	"runtime/debug"
 	"strings"
 	"testing"
+	"time"
 )
 
 type vfReplayCase struct {
@@ -88,7 +90,31 @@ func TestVFReplay(t *testing.T) {
 		t.Fatal(err)
 	}
 	for i, c := range cases {
-		o, d := vfRunCase(c)
-		fmt.Printf("VFREPLAY %d %s %s\n", i, o, strings.ReplaceAll(d, "\n", " "))
+		// each case under a watchdog: a case that blocks natively (the executor said the path completes)
+		// is reported with the stack of its goroutine and the run goes on with the next case
+		type res struct{ o, d string }
+		done := make(chan res, 1)
+		go func(c vfReplayCase) {
+			o, d := vfRunCase(c)
+			done <- res{o, d}
+		}(c)
+		var r res
+		select {
+		case r = <-done:
+		case <-time.After(90 * time.Second):
+			buf := make([]byte, 1<<20)
+			n := runtime.Stack(buf, true)
+			st := ""
+			for _, g := range strings.Split(string(buf[:n]), "\n\n") {
+				if strings.Contains(g, "vfRunCase") {
+					st = g
+				}
+			}
+			if len(st) > 3000 {
+				st = st[:3000]
+			}
+			r = res{"hang", st}
+		}
+		fmt.Printf("VFREPLAY %d %s %s\n", i, r.o, strings.ReplaceAll(r.d, "\n", " | "))
 	}
 }
